@@ -7,9 +7,9 @@ ProcessManager, SignalManager) with link-time wrappers logging the operations on
 mutex; every run (-j 1..16, seeded delays, random command durations) is translated to Start/Append/Finish events and
 fed to the extracted acceptor; tfel-check.log and the exit status are re-checked independently and compared with the
 -j 1 run."""
-import glob, os, re, shutil, threading
+import glob, os, re, shutil, struct, threading, time
 from concurrent.futures import ThreadPoolExecutor
-from vlib import guarded_main, REPO
+from vlib import guarded_main, REPO, REPO_BUILD, CACHE, FileLock
 
 CHECK_SRC = ["AbsoluteComparison", "AreaComparison", "Column", "Comparison", "Configuration", "ConfigurationManager", "Interpolation",
              "LinearInterpolation", "Linearization", "MixedComparison", "NoInterpolation", "PCILogDriver", "PCJUnitDriver", "PCLogger",
@@ -18,7 +18,9 @@ CHECK_SRC = ["AbsoluteComparison", "AreaComparison", "Column", "Comparison", "Co
 REPO_SOURCES = ["tfel-check/src/%s.cxx" % s for s in CHECK_SRC] + [
     "src/System/ThreadPool.cxx", "src/System/ThreadedTaskResult.cxx", "src/System/ProcessManager.cxx", "src/System/ProcessManager-c.c",
     "src/System/SignalManager.cxx", "src/System/SignalHandler.cxx"]
-LIBS = ["-Wl,--wrap=pthread_mutex_lock", "-Wl,--wrap=pthread_mutex_unlock", "-Wl,--wrap=waitpid",
+LIBS = ["-Wl,--wrap=pthread_mutex_lock", "-Wl,--wrap=pthread_mutex_unlock", "-Wl,--wrap=waitpid", "-Wl,--wrap=sigaction", "-Wl,--wrap=fork",
+        "-Wl,--wrap=_ZN4tfel6system13SignalManager15registerHandlerEiPNS0_13SignalHandlerER9sigaction",
+        "-Wl,--wrap=_ZN4tfel6system13SignalManager13removeHandlerEm",
         "-lTFELMFront", "-lMFrontLogStream", "-lTFELMaterial", "-lTFELMathParser", "-lTFELMathCubicSpline", "-lTFELGlossary",
         "-lTFELUnicodeSupport", "-lTFELNUMODIS", "-lTFELMath", "-lTFELUtilities", "-lTFELSystem", "-lTFELConfig", "-lTFELException"]
 MODEL = ["C52Spec.v", "C52Model.v"]
@@ -27,6 +29,46 @@ From C52 Require Import C52Spec C52Model.
 Extraction "c52_model.ml" step_fn init.
 """
 ANSI = re.compile(r"\x1b\[[0-9;]*m")
+KINDS = ["LOGLOCK", "LOGUNLOCK", "POOLLOCK", "POOLUNLOCK", "WAITFAIL", "SELFLOCK", "HEXEC_BEGIN", "HEXEC_END", "HEXEC_DELETED", "HDELETE",
+         "REG_RET", "REM_CALL", "REM_RET", "SIG_ENTER", "SIG_RETURN", "SIG_DEFERRED", "CUNLOCK_IN_HANDLER"]
+
+
+def parse_bin(path):
+    """the mmap'ed log of the driver ($C52_TRACE): [(tid, kind, a)]; it survives a crash"""
+    evs = []
+    try:
+        data = open(path, "rb").read()
+    except OSError:
+        return evs
+    if len(data) < 16:
+        return evs
+    n = struct.unpack_from("q", data, 0)[0]
+    for i in range(max(0, min(n, (len(data) - 16) // 16))):
+        tid, kind, a = struct.unpack_from("iiq", data, 16 + 16 * i)
+        if 0 < kind <= len(KINDS):
+            evs.append((tid, KINDS[kind - 1], a))
+    return evs
+
+
+def private_libs(c):
+    """copy the TFEL shared libraries of the build tree to the scratch directory, while no build of /repo/_build started
+    through vlib is running: a run of the rebuilt tfel-check is then independent of a concurrent relink of those
+    libraries (the dynamic loader leaves with status 127 when one of them is missing or half written)"""
+    dst = os.path.join(c.work, "libs")
+    os.makedirs(dst, exist_ok=True)
+    with FileLock(os.path.join(CACHE, "repo_build.lock")):
+        for root, _d, files in os.walk(REPO_BUILD):
+            for f in files:
+                if re.match(r"lib(TFEL|MFrontLogStream).*\.so", f) and not os.path.exists(os.path.join(dst, f)):
+                    src = os.path.join(root, f)
+                    if os.path.islink(src):
+                        os.symlink(os.readlink(src), os.path.join(dst, f))
+                    else:
+                        try:
+                            os.link(src, os.path.join(dst, f))   # a relink replaces the file, it does not rewrite it
+                        except OSError:
+                            shutil.copy2(src, os.path.join(dst, f))
+    return dst
 
 
 def gen(rng, n):
@@ -73,12 +115,7 @@ def parse_log(txt):
     return blocks, bad
 
 
-def translate(trace, n):
-    evs = []
-    for l in trace.splitlines():
-        t = l.split()
-        if len(t) == 3:
-            evs.append((int(t[0]), t[1], int(t[2])))
+def translate(evs, n):
     per = {}
     waitfail = 0
     for pos, (tid, kind, a) in enumerate(evs):
@@ -117,67 +154,92 @@ def translate(trace, n):
     return [x[1] for x in out], waitfail, len(evs)
 
 
-def gdb_backtrace(c, exe, checks, jobs, seed, tries=6):
-    d = os.path.join(c.work, "runs", "gdb")
-    for i in range(tries):
-        shutil.rmtree(d, ignore_errors=True)
-        os.makedirs(d)
-        args = []
-        for k, cmds in enumerate(checks):
-            os.makedirs(os.path.join(d, "t%d" % k))
-            with open(os.path.join(d, "t%d" % k, "a.check"), "w") as f:
-                f.write("".join('@Command "%s";\n' % x for x in cmds))
-            args.append("t%d/a.check" % k)
-        rc, out, err = c.run(["gdb", "-q", "-batch", "-ex", "handle SIGCHLD nostop noprint pass", "-ex", "run", "-ex", "bt 12", "-ex", "info threads",
-                              "--args", exe, "-j", str(jobs)] + args, cwd=d, env={"C52_SEED": str(seed + i), "C52_PERTURB": "60"}, timeout=120)
-        if "SIGSEGV" in out or "SIGABRT" in out:
-            keep = [l[:200] for l in out.splitlines() if re.match(r"^(#\d+|\*? *\d+ +Thread|Thread .* received signal)", l)]
-            return keep[:40]
-    return "not reproduced under gdb in %d further runs" % tries
+def show(evs, lo, hi):
+    return ["%d: thread %d %s %d" % (i, e[0], e[1], e[2]) for i, e in enumerate(evs) if lo <= i <= hi]
+
+
+def f19_evidence(evs):
+    """-> (position, text) of the first call of a handler that removeHandler has deleted, or of a handler body still
+    running when removeHandler(its id) returned in another thread (the manager is destroyed right after)"""
+    ser_of = {}
+    for (tid, kind, a) in evs:
+        if kind == "REG_RET":
+            ser_of[a // 1000000] = a % 1000000
+    running = {}   # serial -> tid
+    for pos, (tid, kind, a) in enumerate(evs):
+        if kind == "HEXEC_DELETED":
+            return pos, "thread %d, inside SignalManager::treatAction, calls handler (serial %d) which removeHandler has already deleted" % (tid, a)
+        if kind == "HEXEC_BEGIN":
+            running[a] = tid
+        elif kind == "HEXEC_END":
+            running.pop(a, None)
+        elif kind == "HDELETE" and a in running and running[a] != tid:
+            return pos, "thread %d deletes handler (serial %d) inside removeHandler while thread %d is running it" % (tid, a, running[a])
+        elif kind == "REM_RET" and ser_of.get(a) in running and running[ser_of[a]] != tid:
+            return pos, "removeHandler(%d) returns in thread %d while thread %d is still running that handler" % (a, tid, running[ser_of[a]])
+    return None
 
 
 def main(c):
-    exe = c.cxx("tfelcheck", ["driver.cxx"], REPO_SOURCES, flags=["-Dmain=tfel_check_real_main", '-DVERSION="verif"'], libs=LIBS, link_repo_libs=True)
+    libdir = private_libs(c)
+    exe = c.cxx("tfelcheck", ["driver.cxx"], REPO_SOURCES, flags=["-Dmain=tfel_check_real_main", '-DVERSION="verif"'],
+                libs=LIBS + ["-L" + libdir, "-Wl,-rpath," + libdir])
     c.log("tfel-check rebuilt from the working tree with the wrappers")
     acc = c.ocaml_extract("c52", MODEL, EXTRACT, "acceptor.ml")
     c.log("acceptor extracted")
-    c.trusted("link-time wrappers of pthread_mutex_lock/unlock and waitpid in props/C52/driver.cxx; recognition of the pool mutex as the first mutex locked by a non-main thread",
-              "the TFEL libraries other than TFELCheck/ThreadPool/ProcessManager/SignalManager are taken from /repo/_build",
+    c.trusted("link-time wrappers of pthread_mutex_lock/unlock, waitpid, fork, sigaction, SignalManager::registerHandler/removeHandler and of the malloc family "
+              "in props/C52/driver.cxx; recognition of the pool mutex as the first mutex locked by a non-main thread",
+              "the TFEL libraries other than TFELCheck/ThreadPool/ProcessManager/SignalManager are taken from /repo/_build (hard links / copies made while no "
+              "vlib build is running)",
               "python translation of the mutex log to Start/Append/Finish (tasks are popped in submission order: C29) and the parser of tfel-check.log",
               "commands `true`, `false`, `sleep` as ground truth of each check")
     if c.replay:
         r = c.replay["replay"]
-        scen = [(r.get("scenario_name", "replay"), r["checks"], r["jobs"], r["seed"], r["perturb"])]
+        scen = [(r.get("scenario_name", "replay"), r["checks"], r["jobs"], r["seed"], r["perturb"], r.get("widen", 0))]
     else:
         scen = []
         for i in range(c.pick(10, 60)):
             n = c.rng.randint(2, c.pick(10, 30))
-            scen.append(("s%d" % i, gen(c.rng, n), c.rng.choice([2, 2, 3, 4, 8, 16]), c.rng.randrange(1, 1 << 30), c.rng.choice([0, 30, 60])))
+            scen.append(("s%d" % i, gen(c.rng, n), c.rng.choice([2, 2, 3, 4, 8, 16]), c.rng.randrange(1, 1 << 30), c.rng.choice([0, 30, 60]), 0))
+        # many short commands, 4 workers, and a pause of the thread that has just copied the handlers in the signal handler:
+        # the schedule of defect F19 (one ProcessManager per command, destroyed while another thread is in treatAction)
+        for i in range(c.pick(1, 4)):
+            scen.append(("lifetime%d" % i, [["true", "true", "true"] for _ in range(16)], 4, c.rng.randrange(1, 1 << 30), 0, 3000))
     results = {}
     lock = threading.Lock()
 
-    def run_tfel_check(d, checks, jobs, seed, perturb):
-        shutil.rmtree(d, ignore_errors=True)
-        os.makedirs(d)
-        args = []
-        for k, cmds in enumerate(checks):
-            os.makedirs(os.path.join(d, "t%d" % k))
-            with open(os.path.join(d, "t%d" % k, "a.check"), "w") as f:
-                f.write("".join('@Command "%s";\n' % x for x in cmds))
-            args.append("t%d/a.check" % k)
-        env = {"C52_TRACE": os.path.join(d, "trace.txt"), "C52_SEED": str(seed), "C52_PERTURB": str(perturb), "C52_WATCHDOG": "40"}
-        rc, out, err = c.run([exe, "-j", str(jobs)] + args, cwd=d, env=env, timeout=300)
+    def run_tfel_check(d, checks, jobs, seed, perturb, widen):
+        for attempt in range(3):
+            shutil.rmtree(d, ignore_errors=True)
+            os.makedirs(d)
+            args = []
+            for k, cmds in enumerate(checks):
+                os.makedirs(os.path.join(d, "t%d" % k))
+                with open(os.path.join(d, "t%d" % k, "a.check"), "w") as f:
+                    f.write("".join('@Command "%s";\n' % x for x in cmds))
+                args.append("t%d/a.check" % k)
+            env = {"C52_TRACE": os.path.join(d, "trace.bin"), "C52_SEED": str(seed), "C52_PERTURB": str(perturb), "C52_WATCHDOG": "40",
+                   "C52_WIDEN": str(widen), "LD_LIBRARY_PATH": libdir}
+            rc, out, err = c.run([exe, "-j", str(jobs)] + args, cwd=d, env=env, timeout=300)
+            if rc == 127 and ("error while loading shared libraries" in err or "symbol lookup error" in err):
+                time.sleep(2)   # the dynamic loader could not load a library: nothing of tfel-check has run
+                continue
+            break
         log = open(os.path.join(d, "tfel-check.log"), errors="replace").read() if os.path.exists(os.path.join(d, "tfel-check.log")) else ""
-        trace = open(env["C52_TRACE"]).read() if os.path.exists(env["C52_TRACE"]) else ""
+        evs = parse_bin(env["C52_TRACE"])
+        try:
+            os.remove(env["C52_TRACE"])
+        except OSError:
+            pass
         if rc == 97 and os.path.exists(env["C52_TRACE"] + ".hang"):
             err = "HANG\n" + open(env["C52_TRACE"] + ".hang", errors="replace").read()
-        return rc, log, trace, err
+        return rc, log, evs, err
 
     def run_one(ix):
-        name, checks, jobs, seed, perturb = scen[ix]
+        name, checks, jobs, seed, perturb, widen = scen[ix]
         d = os.path.join(c.work, "runs", name)
-        par = run_tfel_check(os.path.join(d, "par"), checks, jobs, seed, perturb)
-        ref = run_tfel_check(os.path.join(d, "ref"), checks, 1, seed, 0)
+        par = run_tfel_check(os.path.join(d, "par"), checks, jobs, seed, perturb, widen)
+        ref = run_tfel_check(os.path.join(d, "ref"), checks, 1, seed, 0, 0)
         with lock:
             results[ix] = (par, ref)
 
@@ -186,11 +248,11 @@ def main(c):
     c.log("%d scenarios run (each with -j N and -j 1)" % len(scen))
     text = ""
     info = {}
-    for ix, (name, checks, jobs, seed, perturb) in enumerate(scen):
+    for ix, (name, checks, jobs, seed, perturb, widen) in enumerate(scen):
         n = len(checks)
         truth = [("false" not in cmds) for cmds in checks]
-        for tag, (rc, log, trace, err) in (("par", results[ix][0]), ("ref", results[ix][1])):
-            model, waitfail, nev = translate(trace, n)
+        for tag, (rc, log, evs, err) in (("par", results[ix][0]), ("ref", results[ix][1])):
+            model, waitfail, nev = translate(evs, n)
             info[(ix, tag)] = (model, waitfail, nev)
             text += "T %d:%s %d %s\n%s\nEND\n" % (ix, tag, n, " ".join("1" if t else "0" for t in truth), "\n".join(model))
     rc, out, err = c.run([acc], input=text, timeout=600)
@@ -200,40 +262,56 @@ def main(c):
         if len(t) >= 2 and t[0] in ("ACCEPT", "REJECT"):
             verdicts[t[1]] = (t[0], t[2] if len(t) > 2 else "")
     accepted = 0
-    for ix, (name, checks, jobs, seed, perturb) in enumerate(scen):
+    deferred = 0
+    for ix, (name, checks, jobs, seed, perturb, widen) in enumerate(scen):
         n = len(checks)
         truth = [("false" not in cmds) for cmds in checks]
         names = ["t%d/a.check" % k for k in range(n)]
         blocks_by_tag = {}
         for tag in ("par", "ref"):
-            rc, log, trace, err = results[ix][0 if tag == "par" else 1]
+            rc, log, evs, err = results[ix][0 if tag == "par" else 1]
             model, waitfail, nev = info[(ix, tag)]
             j = jobs if tag == "par" else 1
-            rep = {"scenario_name": name, "checks": checks, "jobs": jobs, "seed": seed, "perturb": perturb, "run": tag, "exit_status": rc,
+            deferred += sum(1 for e in evs if e[1] == "SIG_DEFERRED")
+            rep = {"scenario_name": name, "checks": checks, "jobs": jobs, "seed": seed, "perturb": perturb, "widen": widen, "run": tag, "exit_status": rc,
                    "tfel_check_log": log[:6000], "model_events": model[:400], "failed_blocking_waitpid_calls": waitfail,
                    "how": "props/C52 driver (tfel-check rebuilt from the tree) -j %d t0/a.check ... in a scratch directory" % j}
             c.count(1, (name, tag), j > 1 and n > j)
             if (ix * 2 + (tag == "ref")) % 9 == 0:
                 c.sample({"scenario": name, "jobs": j, "checks": checks, "model_events_head": model[:18], "exit_status": rc})
-            if rc == 97 and err.startswith("HANG"):
+            # ---- defects of the signal handling (C30: F19, F22), reported only with their evidence in the log of this run
+            ev19 = f19_evidence(evs)
+            if ev19 is not None:
+                rep19 = dict(rep)
+                rep19["log_before"] = show(evs, ev19[0] - 40, ev19[0])
+                c.report("F19:tfel-check-crash", "tfel-check -j %d on scenario %s (%d checks): %s (SignalManager::treatAction calls the handlers it copied after "
+                         "releasing callbacksAccess, while ~ProcessManager in another worker removes and deletes them)" % (j, name, n, ev19[1]), rep19, True)
+            if rc == 96:
+                which = [e[2] for e in evs if e[1] == "SELFLOCK"]
+                rep["log_tail"] = show(evs, len(evs) - 40, len(evs))
+                c.report("F22:tfel-check-deadlock", "tfel-check -j %d on scenario %s (%d checks): a thread locks %s, which it already holds: the signal handler "
+                         "(treatAction -> sigChildHandler) interrupted the holder" % (j, name, n, "callbacksAccess" if which and which[0] == 1 else "processesAccess"),
+                         rep, True)
+                continue
+            if rc in (97, 124):
                 stacks = [l[:160] for l in err.splitlines() if l.startswith("#") or l.startswith("Thread")]
-                rep["stacks_of_all_threads_after_40s"] = stacks[:120]
+                rep["stacks_of_all_threads_after_40s"] = stacks[:160]
+                rep["log_tail"] = show(evs, len(evs) - 40, len(evs))
                 in_handler = sum(1 for l in stacks if "sigChildHandler" in l)
-                if in_handler and any("<signal handler called>" in l for l in stacks):
+                alloc = [l for l in stacks if re.search(r"malloc|_int_free|__libc_free|operator new|operator delete|arena", l)]
+                if alloc and any("<signal handler called>" in l for l in stacks) and any("treatAction" in l for l in stacks):
+                    c.report("F24:allocation-in-signal-handler", "tfel-check -j %d did not finish on scenario %s: a thread is blocked in the memory allocator below "
+                             "SignalManager::treatAction, called from the signal handler (the handlers allocate memory: not async-signal-safe)" % (j, name), rep, True)
+                elif in_handler and any("<signal handler called>" in l for l in stacks) and not any("malloc" in l or "_int_free" in l for l in stacks):
                     c.report("F22:tfel-check-deadlock", "tfel-check -j %d did not finish on scenario %s (%d checks): %d threads are blocked in ProcessManager::sigChildHandler "
                              "(called from the SIGCHLD signal handler) on the non-recursive mutex processesAccess" % (j, name, n, in_handler), rep, True)
                 else:
                     c.report("hang:%s:%s" % (name, tag), "tfel-check -j %d did not finish within 40 s on scenario %s" % (j, name), rep, True)
                 continue
             if rc not in (0, 1):
-                if rc in (-11, -6) and j > 1:
-                    # a crash of the multi-threaded run: SignalManager::treatAction calls handlers that another thread's
-                    # ~ProcessManager -> removeHandler has deleted (F19; gdb: SIGSEGV in treatAction while another thread is in
-                    # ~MemberSignalHandler).  Best effort: try to catch it again under gdb for the replay file.
-                    rep["gdb"] = gdb_backtrace(c, exe, checks, jobs, seed) if shutil.which("gdb") else "gdb not available"
-                    c.report("F19:tfel-check-crash", "tfel-check -j %d was killed by signal %d on scenario %s (%d checks): use of deleted signal handlers in "
-                             "SignalManager::treatAction while another worker thread destroys its ProcessManager" % (j, -rc, name, n), rep, True)
-                else:
+                rep["log_tail"] = show(evs, len(evs) - 60, len(evs))
+                rep["stderr"] = err[-1500:]
+                if ev19 is None or rc not in (-11, -6):
                     c.report("crash:%s:%s" % (name, tag), "tfel-check -j %d ended with status %d on scenario %s: %s" % (j, rc, name, err[-300:]), rep, True)
                 continue
             v = verdicts.get("%d:%s" % (ix, tag))
@@ -270,11 +348,13 @@ def main(c):
             if norm(blocks_by_tag["par"]) != norm(blocks_by_tag["ref"]) and not any(k[0].startswith(("F8", "log:", "verdict:")) for k in c.violations):
                 if not (info[(ix, "par")][1] or info[(ix, "ref")][1]):
                     c.report("multiset:%s" % name, "scenario %s: the blocks of -j %d and -j 1 differ as multisets" % (name, jobs),
-                             {"scenario_name": name, "checks": checks, "jobs": jobs, "seed": seed, "perturb": perturb}, True)
+                             {"scenario_name": name, "checks": checks, "jobs": jobs, "seed": seed, "perturb": perturb, "widen": widen}, True)
     c.coverage["traces_validated_against_impl"] = accepted
     c.coverage["rule"] = ("seeded sets of 2-30 .check files with 1-3 commands each (true / false / sleep 0-40 ms), tfel-check -j 2..16 with seeded delays at "
-                          "the log and pool mutexes, and the same set with -j 1; one evaluation = one tfel-check run; non-trivial = more checks than jobs and jobs > 1")
+                          "the log and pool mutexes, and the same set with -j 1; + `lifetime` sets (16 checks of three `true`, -j 4, pause after the handlers are "
+                          "copied in the signal handler); one evaluation = one tfel-check run; non-trivial = more checks than jobs and jobs > 1")
     c.notes.append("no source hook needed; @Test comparisons are not part of the generated checks (commands only)")
+    c.notes.append("SIGCHLD signals that arrived inside malloc/free and were re-sent after the allocation returned (hazard F24 of props/C30/NOTES.md, kept out of the runs): %d" % deferred)
     c.log("runs judged: %d accepted" % accepted)
     res = c.coq(MODEL + ["C52Proofs.v", "Properties_C52.v"], timeout=600)
     if not res.ok:
